@@ -82,11 +82,21 @@ var corpus = sync.OnceValue(func() []corpusDS {
 				}
 				func() {
 					defer func() { _ = recover() }()
+					// only small datasets are used; the extent is looked at before anything is read (a corpus file declares
+					// billions of elements, and a full read materialises the logical extent)
+					dims := dimsOf(f, d)
+					if pn := uint64(1); true {
+						for _, x := range dims {
+							if x == 0 || pn > 20000/x {
+								return
+							}
+							pn *= x
+						}
+					}
 					vals, err := d.Read()
 					if err != nil || len(vals) == 0 || len(vals) > 20000 {
 						return
 					}
-					dims := dimsOf(f, d)
 					n := 1
 					for _, x := range dims {
 						n *= int(x)
